@@ -117,6 +117,8 @@ def gen_s2(rng):
     types = [rng.randint(1, K) for _ in range(N)]
     T = rng.choice([1, 1, 2])
     frames = [[[dec(rng, 0, fl(H[k][k]), 2) for k in range(d)] for _ in range(N)] for _ in range(T)]
+    if rng.random() < 0.3:
+        frames = [common.unfold_positions(rng, fr, H, ppp) for fr in frames]       # unfolded (xu) coordinates
     return {"kind": "s2", "d": d, "N": N, "K": K, "cell": kind, "H": H, "ppp": ppp, "rdelta": rdelta, "ndelta": ndelta,
             "sig": sig, "types": types, "frames": frames}
 
@@ -221,6 +223,8 @@ def gen_tetra(rng):
         if rng.random() < 0.5:
             ppp = ["1"] * 3
         pos = [[dec(rng, 0, fl(H[k][k]), 2) for k in range(3)] for _ in range(N)]
+        if rng.random() < 0.3:
+            pos = common.unfold_positions(rng, pos, H, ppp)       # unfolded (xu) coordinates
     return {"kind": "tetra", "N": N, "cell": cell, "H": H, "ppp": ppp, "pos": pos, "motif": motif}
 
 
